@@ -1,5 +1,5 @@
 (* C14 - a hold-up delays everything by the hold-up; time itself is irrelevant. *)
-From Wh Require Import Prelude Permute PN Gens Complib Tower Rhythm PyStr Sys RegressP TimingP.
+From Wh Require Import Prelude Permute PN Gens Complib Tower Rhythm PyStr Sys RegressP DetP TimingP.
 From Coq Require Import NArith ZArith QArith.
 From RecordUpdate Require Import RecordSet.
 Import RecordSetNotations.
@@ -29,6 +29,20 @@ Theorem C14_regression_translates : forall c d a b a' b',
   calculate_regression (map (shift_point c) d) = Some (a', b') ->
   a' == a + c /\ b' == b.
 Proof. exact regression_translates. Qed.
+
+(* The product regresses RELATIVE to its first datapoint (blow time and real time subtracted, the intercept
+   shifted back) so that present-day clock values do not ruin the conditioning of the normal matrix; the
+   model regresses on the raw values.  In exact arithmetic the two are the same function, whatever the
+   reference point: the centred fit exists iff the raw one does, has the same interval, and its
+   intercept moved back by (y0 - b x0) is the raw intercept. *)
+Theorem C14_centred_regression_is_the_regression : forall x0 y0 d a' b',
+  calculate_regression (map (centre_point x0 y0) d) = Some (a', b') ->
+  exists a b, calculate_regression d = Some (a, b) /\ a == y0 + (a' - b' * x0) /\ b == b'.
+Proof. exact centred_regression. Qed.
+Theorem C14_centred_regression_defined : forall x0 y0 d a b,
+  calculate_regression d = Some (a, b) ->
+  exists a' b', calculate_regression (map (centre_point x0 y0) d) = Some (a', b').
+Proof. exact centred_regression_defined. Qed.
 
 (* the one place where the code looks at an absolute value: `_start_time == 0` means "not set" *)
 Example C14_origin_sentinel :
